@@ -501,12 +501,15 @@ func TestVerifC10SNI(t *testing.T) {
 // route lookup must see the TLS stack's name however the bytes are segmented.
 func TestVerifC10Segments(t *testing.T) {
 	L := ev.Begin("C10", "c10-segments", "exploration",
-		"a subset of the corpus (smallest, typical, post-quantum ~1.5 kB, padded beyond bufio's 4096-byte buffer, padded to a full 16 kB record, assembled variants) delivered to the real tcp.SNIProxy.ServeTCP over an in-memory connection in 2 segments split at every offset class (every offset up to 16, every 7th after, the last 3) and in 3 segments at (5, 9+k), the bytes the client sends after the hello in a segment of their own or joined to the hello's last segment; oracle: Lookup is called exactly once with the name tls.Server sees for the same bytes, and the upstream receives exactly the bytes sent. non-trivial = every (hello, split) pair")
+		"a subset of the corpus (smallest, typical, post-quantum ~1.5 kB, padded beyond bufio's 4096-byte buffer, padded to a full 16 kB record, assembled variants) delivered to the real tcp.SNIProxy.ServeTCP over an in-memory connection in 2 segments split at every offset class (every offset up to 16, every 7th after, the last 3) and in 3 segments at (5, 9+k), the bytes the client sends after the hello in a segment of their own or joined to the hello's last segment; oracle: Lookup is called exactly once with the name tls.Server sees for the same bytes, and the upstream receives exactly the bytes sent; up to 6 hellos in which tls.Server sees no name (whole and in two segments): no lookup by any name. non-trivial = every (hello, split) pair")
 	corpus := c10Corpus()
-	var pick []c10Hello
+	var pick, noName []c10Hello
 	seenLen := map[int]bool{}
 	for _, h := range corpus {
 		name, ok := stackServerName(h.raw)
+		if ok && name == "" && len(noName) < 6 {
+			noName = append(noName, h) // the TLS stack accepts the hello and sees no name
+		}
 		if !ok || name == "" {
 			continue
 		}
@@ -536,6 +539,11 @@ func TestVerifC10Segments(t *testing.T) {
 			jobs = append(jobs, job{h, []int{5, 9 + k}, false})
 		}
 	}
+	nNamed := len(jobs)
+	for _, h := range noName {
+		jobs = append(jobs, job{h, nil, true}, job{h, []int{5}, false}, job{h, []int{len(h.raw) / 2}, false})
+	}
+	L.Set("hellos_without_a_server_name", len(noName))
 	si, sn := ev.Shard()
 	for ji, j := range jobs {
 		if sn > 1 && ji%sn != si {
@@ -594,6 +602,16 @@ func TestVerifC10Segments(t *testing.T) {
 		d := map[string]interface{}{"hello": j.h.desc, "len": len(j.h.raw), "segment_boundaries": j.cuts, "bytes_after_the_hello_in_its_last_segment": j.joined, "lookups": looked, "tls_stack_name": want}
 		L.Sample(d)
 		L.Outcome(fmt.Sprint(looked))
+		if ji >= nNamed {
+			// no server name in the hello: whatever fabio does with the connection, it does not route it by a name
+			for _, l := range looked {
+				if l != "" {
+					L.Violation("hello-without-server-name-routed-by-a-name-that-is-not-in-it", d)
+					break
+				}
+			}
+			continue
+		}
 		if len(looked) != 1 || looked[0] != want {
 			L.Violation("segmented-hello-routed-by-another-name-or-not-at-all", d)
 			continue
